@@ -66,7 +66,7 @@ struct Fault {
 }
 
 fn faults_for(items: &[usize], pos: usize) -> Vec<Fault> {
-    let f = |kind, text: &str, inline: Option<&str>| Fault { kind, text: text.to_string(), inline: inline.map(|s| s.to_string()), orig: None, open_ended: text == "#res" };
+    let f = |kind, text: &str, inline: Option<&str>| Fault { kind, text: text.to_string(), inline: inline.map(|s| s.to_string()), orig: None, open_ended: text == "#res" || text == "#d8 1 +" };
     let mut v = vec![
         f("unknown-instr", "xyz 1", None),
         f("undef-sym", "ld undefined_sym", Some("#d64 \"→😀\", undefined_sym")),
@@ -75,6 +75,8 @@ fn faults_for(items: &[usize], pos: usize) -> Vec<Fault> {
         f("malformed-directive", "#d8 ,", Some("#d64 \"→😀\", ,")),
         f("malformed-directive", "#res", None),
         f("malformed-directive", "#bogus", None),
+        f("malformed-directive", "#d8 1 +", None),
+        f("malformed-directive", "#ruledef { => 0x55 }", None),
     ];
     // duplicate label: repeat an existing label where that really is a redeclaration in the same scope
     for (j, &it) in items.iter().enumerate() {
@@ -306,8 +308,12 @@ fn build(files: &Files, trailing_nl: bool, relaxed_dup: bool, open_ended: bool) 
                 fault = Some((name.clone(), i + 1));
                 if open_ended {
                     // next line of the same file that has content outside a comment
-                    if ls[i + 1..].iter().any(|n| !n.text.split(';').next().unwrap_or("").trim().is_empty()) {
-                        judge_first = false;
+                    // ... unless that line starts with a dot: `.name` after a line break is a new declaration, never the
+                    // continuation of an expression (the expression parser stops at a line break in front of a dot)
+                    if let Some(n) = ls[i + 1..].iter().find(|n| !n.text.split(';').next().unwrap_or("").trim().is_empty()) {
+                        if !n.text.trim_start().starts_with('.') {
+                            judge_first = false;
+                        }
                     }
                 }
             } else if l.tag == 2 && relaxed_dup {
@@ -687,7 +693,7 @@ pub fn run(ctx: &Ctx) -> Report {
     });
     rep.absorb(local);
     rep.extra("levels", json!(rep.local.counters.clone()));
-    rep.extra("bound", json!({"max_items": maxlen, "alphabet": ITEMS, "rules": RULES, "decorations": DECS, "fault_variants": ["xyz 1", "ld undefined_sym", "ld 0x1ff", "ld 256", "#d8 ,", "#res", "#bogus", "repeat of each label redeclarable at that position"]}));
+    rep.extra("bound", json!({"max_items": maxlen, "alphabet": ITEMS, "rules": RULES, "decorations": DECS, "fault_variants": ["xyz 1", "ld undefined_sym", "ld 0x1ff", "ld 256", "#d8 ,", "#res", "#bogus", "#d8 1 +", "#ruledef { => 0x55 }", "repeat of each label redeclarable at that position"]}));
     rep.extra("first_error_rule", json!(FIRST_ERROR_RULE));
     rep.assumptions = vec![
         "a base program counts as valid only if the input-side rule says so AND the subject assembles it cleanly".into(),
